@@ -305,7 +305,7 @@ func c15Docs() []c15Doc {
 	docs = append(docs, c15Doc{"collaboration", defsHead +
 		`<bpmn:collaboration id="col"><bpmn:participant id="pa" name="A" processRef="p1"/><bpmn:participant id="pb" processRef="p2"/><bpmn:messageFlow id="mf" sourceRef="t1" targetRef="s2"/></bpmn:collaboration>` +
 		`<bpmn:process id="p1" isExecutable="true"><bpmn:startEvent id="s1"><bpmn:outgoing>f1</bpmn:outgoing></bpmn:startEvent><bpmn:intermediateThrowEvent id="t1"><bpmn:incoming>f1</bpmn:incoming><bpmn:outgoing>f2</bpmn:outgoing><bpmn:messageEventDefinition id="m1"/></bpmn:intermediateThrowEvent><bpmn:endEvent id="e1"><bpmn:incoming>f2</bpmn:incoming></bpmn:endEvent><bpmn:sequenceFlow id="f1" sourceRef="s1" targetRef="t1"/><bpmn:sequenceFlow id="f2" sourceRef="t1" targetRef="e1"/>` +
-		`<bpmn:dataObject id="do1" name="d"><bpmn:extensionElements><olive:dataObjectBody>{"a": 1}</olive:dataObjectBody></bpmn:extensionElements></bpmn:dataObject><bpmn:dataObjectReference id="dor1" dataObjectRef="do1"/></bpmn:process>` +
+		`<bpmn:dataObject id="do1" name="d"><bpmn:extensionElements><olive:dataObjectBody>{"a": 1, "sep": "&#xD;&#xA;", "cr": "x&#xD;y", "lt": "&lt;&amp;&gt;]]&gt;"}</olive:dataObjectBody></bpmn:extensionElements></bpmn:dataObject><bpmn:dataObjectReference id="dor1" dataObjectRef="do1"/></bpmn:process>` +
 		`<bpmn:process id="p2" isExecutable="false"><bpmn:startEvent id="s2"><bpmn:outgoing>g1</bpmn:outgoing><bpmn:messageEventDefinition id="m2"/></bpmn:startEvent><bpmn:endEvent id="e2"><bpmn:incoming>g1</bpmn:incoming></bpmn:endEvent><bpmn:sequenceFlow id="g1" sourceRef="s2" targetRef="e2"/></bpmn:process></bpmn:definitions>`, nil})
 	// bundled files
 	for _, dir := range []string{"/repo/testdata", "/repo/examples"} {
@@ -465,6 +465,10 @@ func c15Texts(v reflect.Value) (out []string) {
 		case reflect.Struct:
 			for i := 0; i < v.NumField(); i++ {
 				f := v.Field(i)
+				// character data kept in a plain string field (olive:dataObjectBody)
+				if f.Kind() == reflect.String && v.Type().Field(i).Name == "Body" {
+					out = append(out, "body:"+f.String())
+				}
 				if f.CanAddr() && f.Kind() == reflect.Struct {
 					walk(f.Addr(), depth+1)
 				} else {
